@@ -147,7 +147,7 @@ func c06Seeded(tier string) int {
 	if tier == "thorough" {
 		return 20000 // x 200 evaluations
 	}
-	return 400
+	return 2000
 }
 
 func (p *c06) NumCases(tier string) int {
